@@ -76,6 +76,9 @@ Definition synth_corr (c : scase) : bool :=
       phase_eqb ph (so_phase o) &&
       match r, so_res o with
       | Err OutOfFuel, _ => match k with DProg => true | _ => match so_res o with PErr OutOfFuel => true | _ => false end end
+      (* the unbounded decider was cut (RecursionError or the per-call time limit): the recorded tape ends where the cut happened,
+         so the model may run out of tape instead of fuel *)
+      | Err BadTape, PErr OutOfFuel => match k with DProg => true | _ => false end
       | Ok v, POk w => value_close v w
       | Err e, PErr e' => err_eqb e e'
       | _, _ => false
